@@ -22,6 +22,8 @@ KNOWN_BY_TAG = {
     "do-action-after-provisional-end": ("F-01f", {"event-data", "final-data"}),
     "end-during-wait-in-foreach": ("F-01g", {"event-order"}),
     "case-provisional-match": ("F-01k", {"event-data", "final-data", "event-order"}),
+    "condition-after-consumed-end": ("F-01p", {"rc"}),
+    "lookahead-after-consumed-end": ("F-01p", {"rc"}),
 }
 
 
